@@ -394,6 +394,13 @@ func (c *Compiler) Compile(node parser.Node) error {
 	case *parser.FuncLit:
 		c.enterScope()
 
+		// break/continue must not see the loops of the enclosing function
+		outerLoops, outerLoopIndex := c.loops, c.loopIndex
+		c.loops, c.loopIndex = nil, -1
+		defer func() {
+			c.loops, c.loopIndex = outerLoops, outerLoopIndex
+		}()
+
 		for _, p := range node.Type.Params.List {
 			s := c.symbolTable.Define(p.Name)
 
